@@ -355,7 +355,9 @@ def parse_structs():
 # ---------------------------------------------------------------- ambient-state audit (C09)
 
 AMBIENT_PATTERNS = [
-    ("static", r"\bstatic\s+(mut\s+)?[A-Z_a-z]\w*\s*:"),
+    # an immutable `static` of a type without interior mutability is a constant; interior
+    # mutability is caught wherever the type is spelled out (next patterns)
+    ("static_mut", r"\bstatic\s+mut\s+[A-Z_a-z]\w*\s*:"),
     ("thread_local", r"\bthread_local!"),
     ("lazy_static", r"\blazy_static!|\bonce_cell\b|\bOnceLock\b|\bOnceCell\b|\bLazyLock\b"),
     ("interior_mutability", r"\b(Cell|RefCell|UnsafeCell|Mutex|RwLock|Atomic\w+)\b"),
@@ -426,6 +428,91 @@ def ambient_audit():
     return findings, forbid
 
 
+
+# ---------------------------------------------------------------- hash preimage layouts
+
+def _balanced(s, i, open_ch="(", close_ch=")"):
+    """s[i] == open_ch; returns the index just after the matching close_ch"""
+    depth = 0
+    j = i
+    while j < len(s):
+        if s[j] == open_ch:
+            depth += 1
+        elif s[j] == close_ch:
+            depth -= 1
+            if depth == 0:
+                return j + 1
+        j += 1
+    raise TranslateError("unbalanced %s at %d" % (open_ch, i))
+
+
+_RUST_WORDS = set("as mut let fn pub if else for in while loop match return ref move self crate super where impl dyn const static true false u8 u16 u32 u64 u128 usize i8 i16 i32 i64 isize bool str use mod break continue unsafe".split())
+
+
+def _norm_hash_arg(a):
+    a = re.sub(r"\s+", " ", a.strip())
+    while True:
+        b = a
+        a = re.sub(r"^&\s*(mut\s+)?", "", a)
+        a = re.sub(r"\.(as_slice|as_ref|as_mut_slice)\(\)$", "", a)
+        a = re.sub(r"\[\.\.\]$", "", a)
+        if a.startswith("(") and _balanced(a, 0) == len(a) and "," not in a and " as " not in a:
+            a = a[1:-1].strip()
+        if a == b:
+            return a
+
+
+def hash_inputs():
+    """for every non-test, non-fast_verify function that feeds a hasher: the ordered arguments of its
+    .chain(..) / .update(..) calls, normalised -- the layout of the hash preimages the code assembles"""
+    rows = []
+    for path in rust_files():
+        if path.endswith("verif_hooks.rs"):
+            continue
+        s = strip_fast_verify(non_test_source(path))
+        for m in re.finditer(r"\bfn\s+(\w+)", s):
+            name = m.group(1)
+            # the body: first `{` after the signature at paren depth 0 (skip `where` clauses / return types)
+            i = m.end()
+            depth = 0
+            while i < len(s):
+                ch = s[i]
+                if ch in "(<[":
+                    depth += 1 if ch != "<" else 0
+                elif ch in ")]":
+                    depth -= 1
+                elif ch == ";" and depth == 0:
+                    i = None
+                    break
+                elif ch == "{" and depth == 0:
+                    break
+                i += 1
+            if i is None or i >= len(s):
+                continue
+            end = _balanced(s, i, "{", "}")
+            body = s[i:end]
+            # local names (parameters, let-bound variables) that occur in the hashed arguments are
+            # numbered by their first occurrence in the function, so that a rename (or an unrelated new
+            # local) is not a change and a swap is
+            ftxt = s[m.start():end]
+            ident = r"(?<![\w.])([a-z_][a-z0-9_]*)\b(?!\s*(?:\(|::|!))"
+            raw = []
+            for c in re.finditer(r"\.(chain|update)\s*\(", body):
+                a0 = c.end() - 1
+                a1 = _balanced(body, a0)
+                raw.append(_norm_hash_arg(body[a0 + 1:a1 - 1]))
+            used = set()
+            for a in raw:
+                used |= {t.group(1) for t in re.finditer(ident, a) if t.group(1) not in _RUST_WORDS}
+            first = {}
+            for t in re.finditer(ident, ftxt):
+                if t.group(1) in used and t.group(1) not in first:
+                    first[t.group(1)] = len(first) + 1
+            args = [re.sub(ident, lambda t: ("$%d" % first[t.group(1)]) if t.group(1) in first else t.group(1), a) for a in raw]
+            if args:
+                rows.append((path[len("src/"):] + "::" + name, args))
+    return rows
+
 # ---------------------------------------------------------------- RFC vectors
 
 def parse_rfc_vectors():
@@ -460,7 +547,7 @@ def coq_str(s):
     return '"%s"%%string' % s.replace('"', '""')
 
 
-def render(k, lmots, lms, misc, cfg, structs, impls, ambient, forbid, vecs):
+def render(k, lmots, lms, misc, cfg, structs, impls, ambient, forbid, vecs, hin):
     ofu, oget, orows = lmots
     lfu, lget, lrows = lms
     pair = lambda ab: "(%d, %d)" % ab
@@ -543,6 +630,10 @@ def render(k, lmots, lms, misc, cfg, structs, impls, ambient, forbid, vecs):
     L.append("  " + coq_list(ambient, lambda a: "(%s, %s, %s)" % (coq_str(a["file"]), coq_str(a["kind"]), coq_str(a["text"]))) + ".")
     L.append("Definition src_forbid_unsafe : bool := %s." % ("true" if forbid else "false"))
     L.append("")
+    L.append("(* hash preimage layouts: per function, the ordered arguments of its .chain / .update calls *)")
+    L.append("Definition src_hash_inputs : list (String.string * list String.string) :=")
+    L.append("  [\n" + ";\n".join("  (%s, %s)" % (coq_str(nm), coq_list(args, coq_str)) for nm, args in hin) + "\n  ].")
+    L.append("")
     for v in vecs:
         base = os.path.basename(v["file"]).replace(".rs", "")
         for nm, arr in sorted(v["arrays"].items()):
@@ -565,7 +656,8 @@ def main():
         structs, impls = parse_structs()
         ambient, forbid = ambient_audit()
         vecs = parse_rfc_vectors()
-        text = render(k, lmots, lms, misc, cfg, structs, impls, ambient, forbid, vecs)
+        hin = hash_inputs()
+        text = render(k, lmots, lms, misc, cfg, structs, impls, ambient, forbid, vecs, hin)
     except TranslateError as e:
         print("TRANSLATOR-ERROR: %s" % e)
         sys.exit(2)
